@@ -29,7 +29,7 @@ RULE = ("planner geometries: rank 1-3; 'small' = extents 1..12 (thorough: 1-D bo
         "plus a fixed corpus of such geometries; "
         "rechunk_plan on lazily built arrays (<= 4096 blocks per axis) incl. a cloud work_dir (7 copies); "
         "non-trivial = source != target chunks and the planner accepted; distinct by request text; "
-        "end-to-end: arrays of <= 4000 elements (+ one 123k-element corpus case), allowed_mem chosen so that the default or explicit min_mem forces >= 2 stages")
+        "end-to-end: arrays of <= 3600 elements (+ one 123k-element corpus case in the thorough tier), allowed_mem chosen so that the default or explicit min_mem forces >= 2 stages")
 ASSUMPTIONS = [
     "hypothesis DivOK (float quotient of max_mem / chunk_mem: (f > 1) implies chunk_mem <= max_mem; chunk_mem <= max_mem implies f >= 1 "
     "and int(f) >= 1; int(f) * chunk_mem <= max_mem) — validated on every recorded division (holds for correctly rounded "
@@ -375,7 +375,7 @@ def corr_units(ctx, n):
             cases.append((m, rng.randint(1, 25), rng.randint(1, 25)))
         else:
             s, t = logint(rng, 30), logint(rng, 30)
-            m = min(logint(rng, 40), 3000 * min(s, t))
+            m = min(logint(rng, 40), 300 * min(s, t))
             cases.append((m, s, t))
     for m, s, t in cases:
         sizes = [int(v) for v in O.split_chunksizes(m, s, t)]
@@ -671,7 +671,7 @@ def gen_e2e(rng):
 
 
 def gen_e2e_shrink(rng):
-    n0, n1 = rng.randint(20, 64), rng.randint(12, 60)
+    n0, n1 = rng.randint(20, 64), rng.randint(8, 20)
     sc0 = rng.randint(max(2, n0 // 3), n0 - 1)
     itemsize = rng.choice([1, 2, 4, 8])
     src, tgt = [sc0, rng.randint(1, 2)], [rng.randint(1, max(1, sc0 // 8)), rng.randint(n1 // 2, n1)]
@@ -697,7 +697,8 @@ def e2e(ctx, n):
     import cubed.array_api as xp
     from cubed.utils import normalize_chunks
     R = mods()[1]
-    cases = [dict(c) for c in E2E_CORPUS] + [gen_e2e(ctx.rng) if k % 3 else gen_e2e_shrink(ctx.rng) for k in range(n)]
+    corpus = E2E_CORPUS if ctx.tier == "thorough" else E2E_CORPUS[:2]   # the 123k-element case only in the thorough tier
+    cases = [dict(c) for c in corpus] + [gen_e2e(ctx.rng) if k % 3 else gen_e2e_shrink(ctx.rng) for k in range(n)]
     for c in cases:
         shape = tuple(c["shape"])
         dt = {1: "int8", 2: "int16", 4: "int32", 8: "int64"}[c["itemsize"]]
@@ -763,7 +764,7 @@ def oracle_rplan(ctx, n):
 def oracle(ctx):
     oracle_planners(ctx, ctx.budget(300, 4000))
     oracle_rplan(ctx, ctx.budget(100, 1000))
-    e2e(ctx, ctx.budget(60, 500))
+    e2e(ctx, ctx.budget(45, 400))
 
 
 def search(ctx):
